@@ -230,6 +230,63 @@ def _z3_try(ob, timeout_s, seed=0):
     return r, s
 
 
+def _expand_quantifiers(f, K, ranges, env=None, depth=0):
+    """replace every range quantifier built by the executor (bound-variable names are recorded in
+    symex.QRANGES with their lo/hi) by the finite conjunction / disjunction of its body at 0..K-1.  The side
+    conditions 0 <= lo and hi <= K under which this is an equivalence are collected in `ranges`."""
+    from .symex import QRANGES
+    env = env or []
+    if depth > 8:
+        return f
+    if z3.is_quantifier(f):
+        if f.num_vars() == 1 and f.var_sort(0) == z3.IntSort() and f.var_name(0) in QRANGES:
+            name = f.var_name(0)
+            lo, hi = QRANGES[name]
+            insts = []
+            for k in range(K):
+                kv = z3.IntVal(k)
+                env2 = env + [(z3.Int(name), kv)]
+                inst = z3.substitute_vars(f.body(), kv)
+                insts.append(_expand_quantifiers(inst, K, ranges, env2, depth + 1))
+                glo = z3.substitute(lo, *env2) if env2 else lo
+                ghi = z3.substitute(hi, *env2) if env2 else hi
+                ranges.append(z3.And(glo >= 0, ghi <= K))
+            return z3.And(*insts) if f.is_forall() else z3.Or(*insts)
+        return f
+    if z3.is_app(f) and f.num_args() > 0:
+        args = [_expand_quantifiers(a, K, ranges, env, depth) for a in f.children()]
+        try:
+            return f.decl()(*args)
+        except Exception:  # noqa: BLE001
+            return f
+    return f
+
+
+def bounded_refute(ob, timeout_s, K=2):
+    """An `unknown` obligation is re-asked on a bounded sub-domain: every integer range quantified over lies
+    in [0, K) (in particular lists have at most K elements), where the quantifiers become finite conjunctions.
+    A model found there is a genuine counterexample of the original VC; finding none proves nothing."""
+    ranges = []
+    try:
+        pc = [_expand_quantifiers(f, K, ranges) for f in ob.pc]
+        goal = _expand_quantifiers(ob.goal, K, ranges)
+    except Exception:  # noqa: BLE001
+        return None
+    if not ranges:
+        return None
+    s = z3.Solver()
+    s.set("timeout", int(timeout_s * 1000))
+    for f in pc:
+        s.add(f)
+    for r in ranges:
+        s.add(r)
+    s.add(z3.Not(goal))
+    r = timed_check(s, timeout_s)
+    if r == z3.sat:
+        return s.model()
+    return None
+
+
 def discharge_one(ob, timeout_s=10.0, use_cvc5=True):
     """returns dict(verdict, backend, time, model).  Strategy: z3 with a short budget (most
     VCs take milliseconds); if it gives up, cvc5 --strings-exp with the full budget; then z3
@@ -262,6 +319,10 @@ def discharge_one(ob, timeout_s=10.0, use_cvc5=True):
         return {"verdict": "proved", "backend": "z3", "time": time.time() - t0}
     if r == z3.sat:
         return {"verdict": "refuted", "backend": "z3", "time": time.time() - t0, "model": s.model()}
+    m = bounded_refute(ob, timeout_s)
+    if m is not None:
+        return {"verdict": "refuted", "backend": "z3 (quantifiers expanded on ranges within [0,2))",
+                "time": time.time() - t0, "model": m}
     return {"verdict": "unknown", "backend": "z3+cvc5", "time": time.time() - t0, "reason": reason}
 
 
@@ -375,7 +436,7 @@ def _discharge_payload(ob, timeout_s):
     return res
 
 
-def discharge_all(obs, timeout_s):
+def discharge_all(obs, timeout_s, deadline=None):
     """discharge a list of obligations in a forked child that streams results back; the parent
     enforces a hard per-obligation deadline (z3's soft timeout is not always honoured): a child
     that goes silent is killed, the obligation it was working on is `unknown`, and a new child
@@ -389,8 +450,13 @@ def discharge_all(obs, timeout_s):
         else:
             todo.append(i)
     ctx = mp.get_context("fork")
-    deadline = 3 * timeout_s + 10
+    per_ob = 3 * timeout_s + 10
     while todo:
+        if deadline is not None and time.time() > deadline:
+            for i in todo:
+                results[i] = {"verdict": "unknown", "backend": "none", "time": 0.0,
+                              "reason": "not attempted: the function's time budget was used up"}
+            break
         parent, child = ctx.Pipe(duplex=False)
 
         def work(conn, todo=list(todo)):
@@ -410,7 +476,9 @@ def discharge_all(obs, timeout_s):
         while todo:
             t0 = time.time()
             got = None
-            if parent.poll(deadline):
+            if deadline is not None and time.time() > deadline:
+                break
+            if parent.poll(per_ob):
                 try:
                     got = parent.recv()
                 except EOFError:
@@ -467,9 +535,10 @@ def verify_lemma(reg, lem, timeout_s=10.0):
     return out
 
 
-def verify_function(reg, key, timeout_s=10.0, budget=None):
+def verify_function(reg, key, timeout_s=10.0, budget=None, wall_budget_s=None):
     """generate + discharge; returns a JSON-able dict"""
     t0 = time.time()
+    deadline = t0 + wall_budget_s if wall_budget_s else None
     try:
         run = generate(reg, key, budget)
     except Exception as e:  # noqa: BLE001
@@ -493,7 +562,7 @@ def verify_function(reg, key, timeout_s=10.0, budget=None):
                 canary_refuted += 1
             continue
         real.append(ob)
-    for ob, res in zip(real, discharge_all(real, timeout_s)):
+    for ob, res in zip(real, discharge_all(real, timeout_s, deadline)):
         rec = {
             "name": ob.label, "kind": ob.kind, "clause": ob.info.get("clause", ""), "line": ob.line,
             "path": "".join(str(d) for d in ob.path), "verdict": res["verdict"], "backend": res["backend"],
